@@ -42,7 +42,7 @@ fn b3(b: &[u8]) -> String {
 }
 
 impl<'a, K: HKey> Ctx<'a, K> {
-    fn fail(&mut self, what: String) {
+    pub fn fail(&mut self, what: String) {
         let p = self.prop;
         self.s.out.oracle_fail(format!("{p}: {what}"));
     }
@@ -83,7 +83,7 @@ impl<'a, K: HKey> Ctx<'a, K> {
         self.s.op(line)
     }
 
-    fn expect(&mut self, line: &str, want: &str) {
+    pub fn expect(&mut self, line: &str, want: &str) {
         let r = self.op(line);
         if r != want {
             self.fail(format!("`{line}` returned `{r}`, the ordered-map oracle says `{want}`"));
